@@ -654,4 +654,47 @@ def collapsed_edge(repo: Repo, prop: str = PROP, rule: str = "C02.COLLAPSED-EDGE
 collapsed_edge.rule_id = "C02.COLLAPSED-EDGE"
 
 
-RULES = [set_order, progress_flag, fixpoint_schedules, copy_carries_count, no_spurious_conflict, undefined_raises, grade_before_write, det_sources, neighbour_symmetry, axis_length, grade_idempotent, coincidence_symmetry, clear_complete, collapsed_edge]
+def defined_means_all(repo: Repo) -> RuleRun:
+    """'... gives every block direction of that family the count derived from that chop': a direction counts as defined - and is
+    then copied from and no longer copied to - only when ALL four of its wires carry a grading, collapsed ones included (they
+    supply the direction's count when they come first). Abstract run of WireManagerBase.is_defined on four wires with one
+    undefined wire in every position, valid or collapsed."""
+    from ..peval import Evaluator, NotEvaluable, Obj, Raised
+
+    r = RuleRun(PROP, "C02.DEFINED-MEANS-ALL", floor=6, what="a wire manager is defined iff all four wires are graded - whichever wire is missing, collapsed or not")
+    base = repo.cls("items.wires.manager.WireManagerBase")
+    fn = repo.find_method(base, "is_defined")
+    r.require(fn is not None, "WireManagerBase.is_defined vanished")
+    cls = repo.cls("items.wires.manager.WirePropagateManager")
+    cases = [("all four graded", [True] * 4, [True] * 4, True), ("none graded", [False] * 4, [True] * 4, False)]
+    for k in range(4):
+        cases.append((f"wire {k} ungraded", [i != k for i in range(4)], [True] * 4, False))
+        cases.append((f"wire {k} ungraded and collapsed", [i != k for i in range(4)], [i != k for i in range(4)], False))
+    for label, graded, valid, want in cases:
+        wires = [Obj(f"w{i}", grading=Obj(f"g{i}", is_defined=g), is_valid=v) for i, (g, v) in enumerate(zip(graded, valid))]
+        mgr = Obj("mgr", cls=cls)
+        mgr.set("wires", wires)
+        mgr.set("chops", [])
+        try:
+            got = Evaluator(repo=repo, module=fn.module).call_funcinfo(fn, [mgr])
+        except (Raised, NotEvaluable) as err:
+            raise AnalysisError(f"WireManagerBase.is_defined not evaluable: {err}") from err
+        r.check(got is want, fn, f"{label}: is_defined = {got}", f"WireManagerBase.is_defined with {label} gives {got!r}; expected {want}: a direction that still has an ungraded wire passes for defined, nothing is copied to it any more, and the count written for the block is read from that wire (0) - a well-posed model ends in an error, depending on the insertion order", fn.node, key=f"defined:{label}")
+    return r
+
+
+defined_means_all.rule_id = "C02.DEFINED-MEANS-ALL"
+
+
+def shared_curve(repo: Repo) -> RuleRun:
+    """'... regardless of the order blocks were added, how each block's corners are numbered': a count derived from a size is derived from the length of the CURVE on a shared edge in every block that shares it. Same rule as C07.SHARED-CURVE."""
+    from ..report import rebrand
+    from . import c07
+
+    return rebrand(c07.shared_curve(repo), PROP, "C02.SHARED-CURVE")
+
+
+shared_curve.rule_id = "C02.SHARED-CURVE"
+
+
+RULES = [set_order, progress_flag, fixpoint_schedules, copy_carries_count, no_spurious_conflict, undefined_raises, grade_before_write, det_sources, neighbour_symmetry, axis_length, grade_idempotent, coincidence_symmetry, clear_complete, collapsed_edge, defined_means_all, shared_curve]
